@@ -27,6 +27,11 @@ func (sp *Spec) Files() map[string]string {
 	for f := 0; f < sp.NFiles; f++ {
 		out[fmt.Sprintf("k%d.go", f)] = sp.renderDecl(f)
 	}
+	if sp.SetsElsewhere {
+		if c := sp.renderDecl(-1); strings.Contains(c, "kessoku.Set(") {
+			out["sets_shared.go"] = c
+		}
+	}
 	return out
 }
 
@@ -341,12 +346,14 @@ func (sp *Spec) renderItems(items []Item, indent string, sets *[]string) string 
 	return strings.Join(parts, "\n")
 }
 
+// renderDecl renders declaration file k<file>.go; file -1 is the shared file that holds the Set
+// variables of every injector when the package keeps them apart from the Inject calls.
 func (sp *Spec) renderDecl(file int) string {
 	var b strings.Builder
 	var mentioned []int
 	for i := range sp.Injectors {
 		inj := &sp.Injectors[i]
-		if inj.File != file {
+		if inj.File != file && file >= 0 {
 			continue
 		}
 		mentioned = append(mentioned, inj.Ret)
@@ -360,11 +367,14 @@ func (sp *Spec) renderDecl(file int) string {
 	fmt.Fprintf(&b, "package %s\n\nimport (\n\t\"context\"\n%s\n\t%q\n)\n\nvar _ context.Context\n%s\n", sp.Pkg, extImp, KessokuImport, extUse)
 	for i := range sp.Injectors {
 		inj := &sp.Injectors[i]
-		if inj.File != file {
+		if inj.File != file && file >= 0 {
 			continue
 		}
 		var sets []string
 		body := sp.renderItems(inj.Items, "\t", &sets)
+		if sp.SetsElsewhere && file >= 0 {
+			sets = nil // declared in sets_shared.go
+		}
 		// nested named sets are collected innermost-last; order of var declarations is irrelevant in Go
 		sort.Strings(sets)
 		if sp.MultiVarSets && len(sets) >= 2 {
@@ -381,6 +391,9 @@ func (sp *Spec) renderDecl(file int) string {
 				nb := strings.SplitN(s, "\x00", 2)
 				fmt.Fprintf(&b, "var %s = %s\n\n", nb[0], nb[1])
 			}
+		}
+		if file < 0 {
+			continue
 		}
 		fmt.Fprintf(&b, "var _ = kessoku.Inject[%s](\n\t%q,\n%s\n)\n\n", sp.Types[inj.Ret].Expr(), inj.Name, body)
 	}
